@@ -663,16 +663,23 @@ class BaseNodeVisitor(ast.NodeVisitor):
             ):
                 self.used_ignores.add(lineno - 1)
                 return
-            # There is no previous line for an error on the first line; lines[-1]
-            # would wrap around to the last line of the file.
-            prev_line = lines[lineno - 2].strip() if lineno >= 2 else ""
-            if (
-                prev_line == ignore_comment
-                or error_code is not None
-                and prev_line == f"{ignore_comment}[{error_code.name}]"
-            ):
-                self.used_ignores.add(lineno - 2)
-                return
+            # Ignore comments on their own lines directly above this line apply to
+            # it; there may be several, one for each error code. (There is no previous
+            # line for an error on the first line; lines[-1] would wrap around to the
+            # last line of the file.)
+            prev_index = lineno - 2
+            while prev_index >= 0:
+                prev_line = lines[prev_index].strip()
+                if (
+                    prev_line == ignore_comment
+                    or error_code is not None
+                    and prev_line == f"{ignore_comment}[{error_code.name}]"
+                ):
+                    self.used_ignores.add(prev_index)
+                    return
+                if not prev_line.startswith(f"{ignore_comment}["):
+                    break
+                prev_index -= 1
 
         if is_disabled:
             return None
